@@ -2,7 +2,9 @@ import AiocoapModel.Basic.Bytes
 import AiocoapModel.Blockwise.BlockOpt
 import AiocoapModel.Blockwise.TimeoutDict
 /-!
-Model of the block-wise server machinery, as of the nine `fix:` commits of C06 on top of the
+Model of the block-wise server machinery, as of the twelve `fix:` commits of C06 (the three of round 4:
+the path a `Site` strips is part of the block key; an empty BERT block with the more flag fails the
+size test; of overlapping requests for the beginning the latest decides — `Overlap.lean`) on top of the
 pinned snapshot (ValueError → 4.08; later block never answered with the complete body; stale
 rendering dropped when a newer complete response is sent; a final block longer than its block size
 → 4.00; a completed assembly leaves the spool; a kept rendering is dropped when the handler raises
@@ -26,8 +28,10 @@ none; an observable resource runs block-wise requests through the same spool and
   (`ContinueException.to_message`, `ConstructionRenderableError.to_message`,
    `pipe.error_to_message`)               aiocoap/blockwise.py:38-57, error.py:82-99, pipe.py:232-285
 
-One request is processed atomically (the handler does not yield to another request of
-the same resource while it renders); a handler maps the assembled request to a response message
+`step` answers one request in one go: the handler is applied on the spot.  Handlers that suspend —
+so that several requests of one resource are under way at once — are modelled in `Overlap.lean`
+(`carrive` / `cfinish`, the same functions split at the `await`; an arrival completed on the spot is
+`step`).  A handler maps the assembled request to a response message
 or raises (`Outcome.error`: the code the exception is rendered with — `RenderableError.to_message().code`,
 5.00 for any other exception).  Not modelled: token / message id / message type of the stored
 request (`_append_request_block` copies them from the latest block), the diagnostic payload of
